@@ -205,7 +205,7 @@ vharness! {
 }
 
 vharness! {
-    /// @prop C09,C10 @tier quick @mode fast @cost 2 @funcs Channel::send @bounds as channel_send_empty_t1 with one message already queued, sender = thread 0
+    /// @prop C09,C10 @tier quick @mode fast @cost 3 @funcs Channel::send @bounds as channel_send_empty_t1 with one message already queued, sender = thread 0
     /// send on a non-empty channel appends behind the queued message; the stamp accumulates earlier sends (FIFO hand-over order).
     #[cfg_attr(kani, kani::unwind(8))]
     fn channel_send_nonempty_t0() { send_case(0, 1) }
